@@ -40,6 +40,25 @@ fn main() {
 			}
 			props::run_check(id, tier, seed)
 		}
+		Some("dump-types-replay") => {
+			// hlv dump-types-replay <PROP> <family> <name> <out.json>: write the replay file of one TYPES pair
+			let (Some(prop), Some(fam), Some(name), Some(out)) = (args.get(2), args.get(3), args.get(4), args.get(5)) else { usage() };
+			let mut pairs = props::types_pairs(prop);
+			if prop == "C01" {
+				pairs = hlverif::tyeng::families_mutation_after_check();
+			}
+			match pairs.into_iter().find(|p| &p.family == fam && &p.name == name) {
+				Some(p) => {
+					let doc = serde_json::json!({"property": prop, "signature": format!("accepted|{}|{}", p.family, p.name), "detail": "regression replay of a TYPES pair", "case": {"engine": "types", "pair": p}});
+					std::fs::write(out, serde_json::to_string_pretty(&doc).unwrap()).expect("write");
+					0
+				}
+				None => {
+					eprintln!("no such pair");
+					2
+				}
+			}
+		}
 		Some("replay") => {
 			let Some(f) = args.get(2) else { usage() };
 			props::replay(f)
